@@ -356,15 +356,103 @@ func c16CodePairChangedTogether(c *Check, rule string) {
 // value -1 cannot reach it (a guard or a clamp dominates the make in the world "size = -1").
 func c11NoNegativeChannelSize(c *Check, rule string) {
 	c.Rule(rule, "limiters: the capacity handed to make(chan …) is a non-negative constant, or a variable that a guard / clamp in front of the make keeps from being negative (make panics on a negative capacity: `concurrency -1` would crash the first operation of every new key)", 2)
+	chanCapacityRule(c, rule, []string{"internal/limits/limiters", "internal/limits"}, []int64{-1}, nil,
+		"make panics on a negative capacity – with `concurrency -1` / `rate -1` in the configuration the first limit operation for a new source or destination (or Group.Init) crashes the server, although the type's documentation promises a no-op limiter")
+}
+
+// ---- C12.R21: the queue's delivery semaphore has room for at least one attempt.
+// Queue.dispatch acquires a slot of q.deliverySemaphore before every attempt. Its capacity is `max_parallelism` from the
+// configuration: with 0 the channel is unbuffered – the acquiring send never completes, no message is ever attempted and
+// Queue.Close waits for ever; with a negative value make panics in Init. Decided like C11.R12 for the values 0 and -1,
+// the guard may sit in the (only) caller of the function that creates the channel.
+func c12SemaphoreHasRoom(c *Check, rule string) {
+	c.Rule(rule, "target.queue: the capacity of the delivery semaphore is at least 1 where the channel is created (a guard on max_parallelism in Init or in front of the make): with 0 no attempt ever starts and Close never returns, a negative value panics", 1)
+	chanCapacityRule(c, rule, []string{queueRel}, []int64{0, -1}, func(t types.Type) bool {
+		ch, ok := t.Underlying().(*types.Chan)
+		if !ok {
+			return false
+		}
+		st, isStruct := ch.Elem().Underlying().(*types.Struct)
+		return isStruct && st.NumFields() == 0
+	}, "with `max_parallelism 0` the semaphore is an unbuffered channel: the send that acquires a slot in dispatch never completes, no message is ever attempted and Queue.Close waits for the attempts for ever; a negative value makes make panic in Init")
+}
+
+// chanCapacityRule: for every make(chan …, n) of the packages (restricted to channel types accepted by only, if given)
+// none of the values can be the capacity: n is a constant different from them, or a variable that a guard / clamp keeps
+// from having them – in the function itself or, when n is a parameter, at every call site of the function.
+func chanCapacityRule(c *Check, rule string, rels []string, vals []int64, only func(types.Type) bool, consequence string) {
 	p := c.P
 	n := 0
-	for _, rel := range []string{"internal/limits/limiters", "internal/limits"} {
+	for _, rel := range rels {
 		pk := p.Pkg(rel)
 		if pk == nil {
 			c.Fail(rule, rel, token.NoPos, "anchor unresolved: package not loaded")
 			continue
 		}
 		info := pk.TypesInfo
+		// can value val of variable v reach point here of flow fl?
+		reaches := func(fl *Flow, v *types.Var, here Pt, val int64) ([]Pt, bool) {
+			world := fl.World(func(atom ast.Expr) (bool, bool) {
+				be, ok := ast.Unparen(atom).(*ast.BinaryExpr)
+				if !ok {
+					return false, false
+				}
+				x, y, op := be.X, be.Y, be.Op
+				if objOf(info, y) == v {
+					x, y = y, x
+					switch op {
+					case token.LSS:
+						op = token.GTR
+					case token.GTR:
+						op = token.LSS
+					case token.LEQ:
+						op = token.GEQ
+					case token.GEQ:
+						op = token.LEQ
+					}
+				}
+				if objOf(info, x) != v {
+					return false, false
+				}
+				tv, has := info.Types[y]
+				if !has || tv.Value == nil {
+					return false, false
+				}
+				cv, isInt := constInt(tv)
+				if !isInt {
+					return false, false
+				}
+				switch op {
+				case token.LSS:
+					return val < cv, true
+				case token.LEQ:
+					return val <= cv, true
+				case token.GTR:
+					return val > cv, true
+				case token.GEQ:
+					return val >= cv, true
+				case token.EQL:
+					return val == cv, true
+				case token.NEQ:
+					return val != cv, true
+				}
+				return false, false
+			})
+			reassigned := func(q Pt) bool { return q.Node() != nil && assignsObj(info, q.Node(), v) }
+			return fl.Reach(Query{From: []Pt{fl.Entry()}, Inclusive: true, Target: func(q Pt) bool { return q == here }, Avoid: reassigned, AvoidEdge: world})
+		}
+		isParam := func(fi *FuncInfo, v *types.Var) int {
+			sig, _ := fi.Obj.Type().(*types.Signature)
+			if sig == nil {
+				return -1
+			}
+			for i := 0; i < sig.Params().Len(); i++ {
+				if sig.Params().At(i) == v {
+					return i
+				}
+			}
+			return -1
+		}
 		p.AllFuncs([]*packagesPkg{pk}, func(fi *FuncInfo) {
 			if fi.Decl.Body == nil || strings.HasSuffix(p.Fset.Position(fi.Decl.Pos()).Filename, "_test.go") {
 				return
@@ -383,9 +471,14 @@ func c11NoNegativeChannelSize(c *Check, rule string) {
 						if _, isB := info.Uses[id].(*types.Builtin); !isB {
 							continue
 						}
-						if t := info.TypeOf(call.Args[0]); t == nil {
+						t := info.TypeOf(call.Args[0])
+						if t == nil {
 							continue
-						} else if _, isChan := t.Underlying().(*types.Chan); !isChan {
+						}
+						if _, isChan := t.Underlying().(*types.Chan); !isChan {
+							continue
+						}
+						if only != nil && !only(t) {
 							continue
 						}
 						n++
@@ -395,7 +488,13 @@ func c11NoNegativeChannelSize(c *Check, rule string) {
 						size := ast.Unparen(call.Args[1])
 						if tv, has := info.Types[size]; has && tv.Value != nil {
 							v, isInt := constInt(tv)
-							c.HoldConst(rule, key, call.Pos(), isInt && v >= 0, "constant negative channel capacity")
+							bad := !isInt
+							for _, val := range vals {
+								if v == val {
+									bad = true
+								}
+							}
+							c.HoldConst(rule, key, call.Pos(), !bad, "constant channel capacity "+exprStr(size)+": "+consequence)
 							continue
 						}
 						v, isVar := objOf(info, size).(*types.Var)
@@ -403,65 +502,70 @@ func c11NoNegativeChannelSize(c *Check, rule string) {
 							c.Fail(rule, key, call.Pos(), "undecided: the channel capacity "+exprStr(size)+" is neither a constant nor a plain variable")
 							continue
 						}
-						// the world "v = -1"
-						world := fl.World(func(atom ast.Expr) (bool, bool) {
-							be, ok := ast.Unparen(atom).(*ast.BinaryExpr)
-							if !ok {
-								return false, false
+						msg := ""
+						for _, val := range vals {
+							path, found := reaches(fl, v, pt, val)
+							if !found {
+								continue
 							}
-							x, y, op := be.X, be.Y, be.Op
-							if objOf(info, y) == v {
-								x, y = y, x
-								switch op {
-								case token.LSS:
-									op = token.GTR
-								case token.GTR:
-									op = token.LSS
-								case token.LEQ:
-									op = token.GEQ
-								case token.GEQ:
-									op = token.LEQ
+							// the guard may sit at the call sites when the capacity is a parameter
+							pi := -1
+							if body == fi.Decl.Body {
+								pi = isParam(fi, v)
+							}
+							if pi < 0 {
+								msg = "the value " + itoa(int(val)) + " of " + v.Name() + " reaches make(chan …, " + v.Name() + ") (" + fl.Describe(path) + "): " + consequence
+								break
+							}
+							sites := 0
+							p.AllFuncs([]*packagesPkg{pk}, func(cf *FuncInfo) {
+								if cf.Decl.Body == nil || strings.HasSuffix(p.Fset.Position(cf.Decl.Pos()).Filename, "_test.go") {
+									return
 								}
+								funcBodies(p, cf, func(cname string, cbody *ast.BlockStmt, cfl *Flow) {
+									for _, cpt := range cfl.Points() {
+										if cpt.Node() == nil || !directlyIn(cbody, cpt.Node()) {
+											continue
+										}
+										for _, cc := range callsAt(cpt.Node()) {
+											if callee(info, cc) != fi.Obj || pi >= len(cc.Args) {
+												continue
+											}
+											sites++
+											arg := ast.Unparen(cc.Args[pi])
+											if tv, has := info.Types[arg]; has && tv.Value != nil {
+												if cv, isInt := constInt(tv); isInt && cv == val {
+													msg = cname + " passes the constant " + itoa(int(val)) + " as the capacity: " + consequence
+												}
+												continue
+											}
+											av, isAV := objOf(info, arg).(*types.Var)
+											if !isAV {
+												msg = "undecided: " + cname + " passes " + exprStr(arg) + " as the capacity"
+												continue
+											}
+											if cpath, cfound := reaches(cfl, av, cpt, val); cfound {
+												msg = "the value " + itoa(int(val)) + " of " + av.Name() + " reaches the call of " + fi.Name() + " in " + cname + " (" + cfl.Describe(cpath) + ") and from there make(chan …, " + v.Name() + "): " + consequence
+											}
+										}
+									}
+								})
+							})
+							if sites == 0 {
+								msg = "the value " + itoa(int(val)) + " of parameter " + v.Name() + " reaches make(chan …, " + v.Name() + ") and no caller was found to guard it: " + consequence
 							}
-							if objOf(info, x) != v {
-								return false, false
+							if msg != "" {
+								break
 							}
-							tv, has := info.Types[y]
-							if !has || tv.Value == nil {
-								return false, false
-							}
-							cv, isInt := constInt(tv)
-							if !isInt {
-								return false, false
-							}
-							const val = int64(-1)
-							switch op {
-							case token.LSS:
-								return val < cv, true
-							case token.LEQ:
-								return val <= cv, true
-							case token.GTR:
-								return val > cv, true
-							case token.GEQ:
-								return val >= cv, true
-							case token.EQL:
-								return val == cv, true
-							case token.NEQ:
-								return val != cv, true
-							}
-							return false, false
-						})
-						reassigned := func(q Pt) bool { return q.Node() != nil && assignsObj(info, q.Node(), v) }
-						here := pt
-						path, found := fl.Reach(Query{From: []Pt{fl.Entry()}, Inclusive: true, Target: func(q Pt) bool { return q == here }, Avoid: reassigned, AvoidEdge: world})
-						c.Hold(rule, key, call.Pos(), !found, "the value -1 of "+v.Name()+" reaches make(chan …, "+v.Name()+") ("+fl.Describe(path)+"): make panics on a negative capacity – with `concurrency -1` / `rate -1` in the configuration the first limit operation for a new source or destination (or Group.Init) crashes the server, although the type's documentation promises a no-op limiter")
+						}
+						c.Hold(rule, key, call.Pos(), msg == "", msg)
 					}
 				}
 			})
 		})
 	}
 	if n == 0 {
-		c.Fail(rule, "sites", token.NoPos, "anchor unresolved: no buffered channel is created in the limiter packages")
+		c.Fail(rule, "sites", token.NoPos, "anchor unresolved: no channel of the kind the rule looks at is created")
 	}
 }
 
@@ -538,4 +642,76 @@ func derefNamed(t types.Type) (*types.Named, bool) {
 	}
 	nt, ok := types.Unalias(t).(*types.Named)
 	return nt, ok
+}
+
+// ---- C13.R13 (= C05.R17): the TLSA look-up that is awaited is the one started for this MX.
+// daneDelivery keeps ONE pending look-up per delivery: PrepareConn(mx) starts it, CheckConn(…, mx, …) waits for it.
+// The pair belongs to one attempt: remoteDelivery.attemptMX prepares the policies for record.Host, connects, and
+// checks. With the PrepareConn calls hoisted into a loop over all MX records in front of the connection loop (C13S:
+// "start the look-ups early") every MX is judged against the records of the LAST one: a preferred MX with a
+// mismatching usable record is accepted when the backup MX publishes none, and an MX without records is refused when
+// the backup publishes some. Decided in target.remote: a function that calls CheckConn on the policies calls
+// PrepareConn before it on some path, and a function that calls PrepareConn goes on to CheckConn itself.
+func c13PreparedInTheSameAttempt(c *Check, rule string) {
+	c.Rule(rule, "target.remote: the per-MX policy look-up is started (PrepareConn) in the very function that later awaits it (CheckConn) – no function prepares connections it does not check, none checks without having prepared (the DANE policy holds one pending look-up per delivery: preparing all MXs ahead judges every MX by the last one's records)", 2)
+	p := c.P
+	pk := p.Pkg("internal/target/remote")
+	if pk == nil {
+		c.Fail(rule, "package", token.NoPos, "anchor unresolved")
+		return
+	}
+	info := pk.TypesInfo
+	isPolicyCall := func(call *ast.CallExpr, name string) bool {
+		if methodName(call) != name {
+			return false
+		}
+		fn := callee(info, call)
+		if fn == nil || fn.Pkg() == nil || !strings.HasSuffix(fn.Pkg().Path(), "/framework/module") {
+			return false
+		}
+		sig, _ := fn.Type().(*types.Signature)
+		return sig != nil && sig.Recv() != nil && types.IsInterface(sig.Recv().Type())
+	}
+	n := 0
+	p.AllFuncs([]*packagesPkg{pk}, func(fi *FuncInfo) {
+		if fi.Decl.Body == nil || strings.HasSuffix(p.Fset.Position(fi.Decl.Pos()).Filename, "_test.go") {
+			return
+		}
+		fi = p.DeclOf(fi.Obj)
+		if fi == nil || fi.Decl.Body == nil {
+			return
+		}
+		var preps, checks []Pt
+		fl := p.FlowOfFunc(fi)
+		for _, pt := range fl.Points() {
+			if pt.Node() == nil {
+				continue
+			}
+			for _, call := range callsAt(pt.Node()) {
+				if isPolicyCall(call, "PrepareConn") {
+					preps = append(preps, pt)
+				}
+				if isPolicyCall(call, "CheckConn") {
+					checks = append(checks, pt)
+				}
+			}
+		}
+		if len(preps) == 0 && len(checks) == 0 {
+			return
+		}
+		n++
+		c.SawFunc(fi.Name())
+		name := fi.Name()
+		if len(checks) > 0 {
+			_, reach := fl.Reach(Query{From: preps, Target: isPt(checks)})
+			c.Hold(rule, name+":checked-after-prepared", fi.Decl.Pos(), len(preps) > 0 && reach, "the function awaits the policies' verdict for a connection (CheckConn) without having started their look-up for that MX (PrepareConn) itself: what the DANE policy waits for is whatever look-up was started last – with the look-ups of all MX records started ahead, every MX is judged by the TLSA records of the last one (a mismatching certificate is accepted when the backup MX publishes no records; an MX without records is refused when the backup publishes some)")
+		}
+		if len(preps) > 0 {
+			_, reach := fl.Reach(Query{From: preps, Target: isPt(checks)})
+			c.Hold(rule, name+":prepared-then-checked", fi.Decl.Pos(), len(checks) > 0 && reach, "the function starts the policies' look-up for an MX (PrepareConn) but does not itself go on to CheckConn: the DANE policy keeps one pending look-up per delivery, a second PrepareConn (for the next MX record) replaces the first before it was awaited")
+		}
+	})
+	if n == 0 {
+		c.Fail(rule, "sites", token.NoPos, "anchor unresolved: no PrepareConn / CheckConn call on the policies in target.remote")
+	}
 }
